@@ -632,6 +632,10 @@ func (l *lexer) lexFuncDef() action {
 	l.emit('(')
 	if tok := l.scanToken(); tok != ')' {
 		return l.lexToken(tok)
+	} else if l.bquote {
+		// '`' ends the substitution, not the function definition
+		l.error(l.pos, "syntax error: unexpected '`', expecting ')'")
+		return nil
 	}
 	l.emit(')')
 	if !l.linebreak() {
